@@ -1,9 +1,11 @@
-use crate::solvers::common::{DisplayValue, LpSolution, SolverError, format_float};
+use crate::solvers::common::{
+    DisplayValue, LpSolution, SolutionStatus, SolverError, format_float,
+};
 use crate::transformers::LinearModel;
 use crate::{
     Assignment, Comparison, OptimizationType, VariableType, make_constraints_map_from_assignment,
 };
-use microlp::{ComparisonOp, Error, OptimizationDirection, Problem, SolveOptions};
+use microlp::{ComparisonOp, Error, OptimizationDirection, Problem, SolveOptions, Status};
 use serde::{Deserialize, Serialize};
 use std::fmt::{Display, Formatter};
 use std::time::Duration;
@@ -178,7 +180,14 @@ pub fn solve_milp_lp_problem_with(
     }
 
     match problem.solve_with(solve_options) {
+        // a limit fired before any feasible point was known: the values microlp
+        // would hand back are the LP state, not an answer to the problem
+        Ok(s) if s.status() == Status::Interrupted => Err(SolverError::LimitReached),
         Ok(s) => {
+            let status = match s.status() {
+                Status::Optimal => SolutionStatus::Optimal,
+                _ => SolutionStatus::Feasible,
+            };
             let assignment = microlp_vars
                 .iter()
                 .zip(variables)
@@ -204,7 +213,8 @@ pub fn solve_milp_lp_problem_with(
                 assignment,
                 s.objective() + lp.objective_offset(),
                 constraints,
-            ))
+            )
+            .with_status(status))
         }
         Err(e) => Err(match e {
             Error::InternalError(s) => SolverError::Other(s),
